@@ -166,7 +166,11 @@ def random_automaton(rng, kmax=8, lmax=4):
         if hidden and v == k - 1 and k > 1:
             continue       # last state appears only as a neighbour ("hidden vertex")
         graph.append([v, [[l, rng.randrange(k)] for l in labels if rng.random() < p]])
-    starts = [0] if rng.random() < 0.8 else sorted(rng.sample(range(k), rng.randint(1, min(3, k))))
+    # start vertices are states of the automaton (a start vertex outside the vertex set is not an automaton)
+    verts = sorted({v for v, _ in graph} | {w for _, es in graph for _, w in es}) or [0]
+    if not graph:
+        graph = [[0, []]]
+    starts = [verts[0]] if rng.random() < 0.8 else sorted(rng.sample(verts, rng.randint(1, min(3, len(verts)))))
     return {"graph": graph, "starts": starts}
 
 
@@ -355,6 +359,8 @@ def gen_acc(rng, n):
             yield {"aut": jm, "spec": specm, "calls": rand_calls(rng, jm, same_options=rng.random() < 0.7), "multi": True}
             continue
         edits = rand_edits(rng, j) if rng.random() < 0.35 else []
+        while edits and any(st not in edited_graph({"aut": j, "edits": edits})[0] for st in j["starts"]):
+            edits.pop()          # an edit history must not delete a start vertex (recurrent() can)
         spec = rep_spec_for(rng, {"graph": j["graph"] + [[0, [[e[3], 0]]] for e in edits if e[0] == "add"], "starts": j["starts"]},
                             drop=rng.random() < 0.05)      # (renamings permute / case-swap labels: same letters)
         if edits:
@@ -397,7 +403,11 @@ def run_acc(inp):
     for c in inp["calls"]:
         s = c["start"] if c["start"] is not None else (A.start_vertices[0] if A.start_vertices else None)
         enum.append(H.guard(lambda: [[w, v] for w, v in A.enumerate_words(c["L"], start_vertex=s, with_states=True)]))
-    return {"outs": outs, "enum": enum, "final": final_json(A)}
+    # labels without an image: whether (and when) looking one up raises is not part of the property
+    labs = sorted({lab for v in A.graph_dict for lab in A.graph_dict[v]})
+    uneval = {"True": [l for l in labs if H.exc_name(H.guard(lambda: rep[l]))],
+              "False": [l for l in labs if l not in rep.generators]}
+    return {"outs": outs, "enum": enum, "final": final_json(A), "uneval": uneval}
 
 
 def lean_acc(inp, obs):
@@ -415,6 +425,11 @@ def judge_acc(inp, obs, lr):
         return {"expected": lr[0], "observed": obs, "tags": {"setup": True}}
     for i, (c, o, r) in enumerate(zip(inp["calls"], obs["outs"], lr[0]["ok"])):
         why = compare_result(o, r, c["with_words"])
+        if why == "error mismatch" and obs.get("uneval", {}).get(str(bool(c["edge_words"]))) and \
+                "KeyError" in (H.exc_name(o), r.get("err")):
+            # some label of the automaton has no image under this option: an implementation may or may not look it up
+            # (e.g. on an edge that lies on no accepted path), so "raises KeyError" vs "returns" is not compared
+            continue
         if why:
             tags = {"maxlen": c["maxlen"], "with_words": c["with_words"], "edge_words": c["edge_words"],
                     "dir": "end" if c["end"] is not None else "start", "memo_reused": bool(c.get("keep")), "why": why}
@@ -472,9 +487,8 @@ def lean_free(inp, obs):
 def judge_free(inp, obs, lr):
     if "exc" in obs or any("err" in r for r in lr):
         return {"expected": lr, "observed": obs, "tags": {"setup": True}}
-    g = lr[0]["ok"]
-    if {v: dict(map(tuple, es)) for v, es in g["graph"]} != {v: dict(map(tuple, es)) for v, es in obs["graph"]} or g["starts"] != obs["starts"]:
-        return {"expected": g, "observed": obs["graph"], "tags": {"fn": "free_automaton"}}
+    # (the states of free_automaton are an implementation detail: only its language is compared, through
+    #  freely_reduced_elements below; the model's graph is not imposed on the implementation)
     why = compare_result(obs["res"], {"ok": lr[1]["ok"]}, inp["with_words"])
     if why:
         return {"expected": lr[1]["ok"], "observed": obs["res"], "tags": {"fn": "freely_reduced_elements", "why": why}}
@@ -543,7 +557,7 @@ def run_paths(inp):
     # without the word list the same matrices come back
     m2 = np.asarray(rep.automaton_accepted(A, c["L"], maxlen=c["maxlen"], with_words=False, start_state=c["start"],
                                            end_state=c["end"], edge_words=True))
-    out["nomats"] = bool(m2.shape == mats.shape and (m2.size == 0 or np.allclose(m2, mats, rtol=1e-9, atol=1e-9)))
+    out["nomats"] = bool(m2.shape == mats.shape and match_mats_c(m2.tolist(), mats.tolist()))    # same multiset (no order is documented)
     if c["end"] is None and c["maxlen"]:
         s = c["start"] if c["start"] is not None else A.start_vertices[0]
         out["enum"] = sorted(A.enumerate_words(c["L"], start_vertex=s))       # (plain concatenation of the labels)
@@ -596,8 +610,8 @@ def run_single(inp):
     A = aut_from_json(inp["aut"])
     r1 = rep.automaton_accepted(A, inp["L"], maxlen=inp["maxlen"], with_words=True, end_state=inp["end"], edge_words=False)
     r2 = rep.automaton_accepted(A, inp["L"], maxlen=inp["maxlen"], with_words=True, end_state=inp["end"], edge_words=True)
-    same = list(r1[1]) == list(r2[1]) and np.asarray(r1[0]).shape == np.asarray(r2[0]).shape and \
-        (np.asarray(r1[0]).size == 0 or bool(np.allclose(r1[0], r2[0], rtol=1e-9, atol=1e-9)))
+    same = _same({"mats": np.asarray(r1[0], dtype=complex).tolist(), "words": list(r1[1])},
+                 {"mats": np.asarray(r2[0], dtype=complex).tolist(), "words": list(r2[1])})
     return {"same": same, "n": len(r1[1])}
 
 
